@@ -26,6 +26,10 @@ CHECKS = {
          "The quantifier domains are finite and are covered completely in both tiers: 14 713 Easter years, 3 000 Pesach years, all 885 917 Moslem dates of 1..2500 AH (forward and round trip) and all 868 713 civil days 622-07-16..3000-12-31 (backward), each against an independently written arithmetic calendar.",
          "Trusts the three reference calendars (written from their defining rules, not from Meeus' closed forms) and the civil calendar model of C01.",
          "DESIGN.md 3/C19"),
+ "C10": (MC, "explicit-state enumeration of the leap-second step automaton over months, every state replayed on the table lookup, the UTC constructor, the read-back and all overrides",
+         "All 1 812 states (year, month, count) 1950-01..2100-12 of the IERS automaton are replayed: table value, utc=True offset and read-back at 9 instants per state, overrides 0..60 per state, and Delta-T for all 60 012 months -2000..3000; the quantifier domain of the property is finite and covered completely.",
+         "Trusts the IERS list of 27 insertion dates typed into the reference model.",
+         "DESIGN.md 3/C10"),
 }
 
 NOT_YET = {}
